@@ -38,17 +38,12 @@ def rule_filter(ctx):
         g = c.generators[0]
         pv = norm(g.target)
         conj = set()
+        cjs = []
         for t in g.ifs:
-            conj |= {norm(x) for x in pr.conjuncts(t)}
+            cjs += pr.conjuncts(t)
+        conj = {norm(x) for x in cjs}
         d = df.defs(f)
-        cut = None
-        for cj in conj:
-            if cj.startswith(f'{pv}.last_good > '):
-                cut = cj.split(' > ', 1)[1]
-        cut_ok = False
-        if cut:
-            cd = d.get(cut, [])
-            cut_ok = len(cd) == 1 and norm(cd[0][1]) == 'time.time() - STALE_SECS'
+        cut_ok = recency_test(ctx, f, cjs, pv, d)
         need = {f'not {pv}.bad', f'{pv}.is_public'}
         ok = need <= conj and cut_ok and len(conj) == 3 and ctx.res.canon(g.iter, f) == 'self.peers' and norm(c.elt) == pv
         why = f'conjuncts {sorted(conj)}, cutoff ok={cut_ok}'
@@ -65,6 +60,18 @@ def rule_filter(ctx):
     ctx.check(bool(okr), 'C19.FILTER', ctx.key(f, None, 'returns the filtered list'), 'the filtered list is what is returned',
               'the function does not return the filtered list', loc=ctx.loc(f, f.node))
     return n + 1
+
+
+def recency_test(ctx, f, conjuncts, pv, d):
+    '''One of the conjuncts is `<pv>.last_good > <cutoff>` with cutoff = time.time() - STALE_SECS.'''
+    for cj in conjuncts:
+        if not (isinstance(cj, ast.Compare) and len(cj.ops) == 1):
+            continue
+        for cand in (cj.left, cj.comparators[0]):
+            if isinstance(cand, ast.Name) and len(d.get(cand.id, [])) == 1 and norm(d[cand.id][0][1]) == 'time.time() - STALE_SECS':
+                if q.cmp_matches(ctx, f, cj, f'{pv}.last_good > {cand.id}'):
+                    return True
+    return False
 
 
 def rule_prov(ctx):
@@ -114,10 +121,8 @@ def rule_prov(ctx):
             if isinstance(val, ast.Call) and norm(val.func) == 'set' and val.args and isinstance(val.args[0], ast.GeneratorExp):
                 g = val.args[0].generators[0]
                 pv = norm(g.target)
-                conj = {norm(x) for t in g.ifs for x in pr.conjuncts(t)}
-                cut = [c for c in conj if c.startswith(f'{pv}.last_good > ')]
-                cd = d.get(cut[0].split(' > ', 1)[1], []) if cut else []
-                okk = ctx.res.canon(g.iter, f) == 'self.myselves' and len(cut) == 1 and len(cd) == 1 and norm(cd[0][1]) == 'time.time() - STALE_SECS'
+                cjs = [x for t in g.ifs for x in pr.conjuncts(t)]
+                okk = ctx.res.canon(g.iter, f) == 'self.myselves' and len(cjs) == 1 and recency_test(ctx, f, cjs, pv, d)
             elif isinstance(val, ast.Call) and norm(val.func) == 'set' and not val.args:
                 okk = True
             why = 'own identities must pass the same recency test'
